@@ -478,9 +478,10 @@ def lean_lines(tg: Target, U, dUs, exact=None):
 
 
 # -------------------------------------------------- exact (Fraction) circuits
-def rationalise(M):
+def rationalise(M, tol=1e-13):
     """numpy complex matrix -> rows of (Fraction, Fraction), or None when an
-    entry is not (within 1e-13) a rational with denominator <= DENOM_BOUND."""
+    entry is not (within tol) a rational with denominator <= DENOM_BOUND.
+    (Necessary, not sufficient: the caller checks exact unitarity.)"""
     out = []
     for row in np.asarray(M):
         r = []
@@ -488,7 +489,7 @@ def rationalise(M):
             pr = []
             for x in (z.real, z.imag):
                 f = Fraction(float(x)).limit_denominator(DENOM_BOUND)
-                if abs(float(f) - float(x)) > 1e-13:
+                if abs(float(f) - float(x)) > tol:
                     return None
                 pr.append(f)
             r.append(tuple(pr))
@@ -556,6 +557,15 @@ def x_embed(G, loc, radixes):
     return out
 
 
+def x_is_unitary(G) -> bool:
+    n = len(G)
+    Gd = [[(G[j][i][0], -G[j][i][1]) for j in range(n)] for i in range(n)]
+    P = x_matmul(Gd, G)
+    one, zero = (Fraction(1), Fraction(0)), (Fraction(0), Fraction(0))
+    return all(P[i][j] == (one if i == j else zero)
+               for i in range(n) for j in range(n))
+
+
 def x_to_np(M):
     return np.array([[complex(float(a), float(b)) for a, b in row]
                      for row in M])
@@ -573,13 +583,23 @@ def exact_circuit(circuit, x):
         p = list(x[k:k + op.num_params])
         k += op.num_params
         G = rationalise(op.gate.get_unitary(p).numpy)
-        if G is None:
+        if G is None or not x_is_unitary(G):
+            # limit_denominator finds a fraction within 1e-13 of ANY real
+            # number; only an exactly unitary result is a rational gate
             return None
         gs = []
         if op.num_params:
+            # d/dtheta of an entry is a polynomial in the same (cos, sin)
+            # values with one extra factor 1/2: its denominator divides
+            # 2 * (common denominator of G)^2
+            den = 1
+            for row in G:
+                for a, b in row:
+                    den = math.lcm(den, a.denominator, b.denominator)
             for dG in op.gate.get_grad(p):
-                r = rationalise(dG)
-                if r is None:
+                r = rationalise(dG, 2e-15)
+                if r is None or any((2 * den * den) % z.denominator
+                                    for row in r for e in row for z in e):
                     return None
                 gs.append(x_embed(r, list(op.location), radixes))
         mats.append((x_embed(G, list(op.location), radixes), gs))
@@ -1083,7 +1103,7 @@ def section_costs(R: Run, ncases: int, nexact: int):
     exact_keys = [k for k in keys_all if 'exact' in P[k][1]]
     shapes = [[2], [3], [2, 2], [2, 3], [3, 2], [3, 3], [2, 2, 2], [2, 3, 2],
               [3, 2, 2], [2, 2, 3], [3, 3, 2], [2, 2, 2, 2], [2, 3, 2, 2],
-              [3, 3, 3], [2, 2, 3, 3]]
+              [3, 3, 3], [2, 2, 3, 3], [3, 3, 3, 3]]
     kinds = ['U', 'S', 'Y']
     flavours = ['rand', 'phase', 'pert']
     done = 0
@@ -1124,6 +1144,34 @@ def section_costs(R: Run, ncases: int, nexact: int):
         R.cost_case(radixes, ops, x, kinds[done % 3], 'rand', tag,
                     exact_pt=True)
         done += 1
+    R.settle_lean()
+
+
+def section_corpus(R: Run):
+    """Deterministic part, run first on every seed: every parameterised gate
+    the engine implements natively, alone in a circuit, in both qudit orders,
+    against a unitary and a state target (one gate = one culprit), plus one
+    pure-Python gate.  This is where a per-gate disagreement between the
+    engine and the Python definition shows up whatever the seed."""
+    P = pool()
+    for k in sorted(P):
+        g, tags = P[k]
+        if g.num_params == 0 or 'vu' in tags or not (
+                'native' in tags or k in ('PyG23', 'CP', 'C(RZ)')):
+            continue
+        nq = g.num_qudits
+        locs = [tuple(range(nq))]
+        if nq == 2 and g.radixes[0] == g.radixes[1]:
+            locs.append((1, 0))
+        for loc in locs:
+            radixes = [0] * nq
+            for q, r in zip(loc, g.radixes):
+                radixes[q] = r
+            for kind in ('U', 'S'):
+                x = gen_params(R.rng, g.num_params, 'rand')
+                R.cost_case(radixes, [(k, loc)], x, kind, 'rand',
+                            'python' if 'python' in tags else
+                            'native' if 'native' in tags else 'oq')
     R.settle_lean()
 
 
@@ -1925,8 +1973,9 @@ def run(ck: Check):
         if rp.get('section') in ('cost', 'exact') and 'ops' in rp:
             print(f'replay: {rp["section"]} case {rp["ops"]} params '
                   f'{rp["params"]} target {rp["target_kind"]}')
-    scale = 6 if thorough else 1
+    scale = 16 if thorough else 1
     for name, fn in [
+            ('corpus', lambda: section_corpus(R)),
             ('costs', lambda: section_costs(R, 150 * scale, 36 * scale)),
             ('instantiate', lambda: section_instantiate(R, 72 * scale)),
             ('minimize', lambda: section_minimize(R, 24 * scale)),
